@@ -134,7 +134,7 @@ def run_pool(prop, cases, jobs, deadline, env=None, progress=True, stop_after_vi
                 results.append(r)
                 if stop_after_viol and sum(1 for x in results if x.get("viol")) >= stop_after_viol:
                     stop.set()
-                if progress and len(results) % 200 == 0:
+                if progress and os.environ.get("VERIF_PROGRESS") and len(results) % 200 == 0:
                     print(f"  .. {len(results)}/{len(cases)} cases, {time.time() - t0:.0f}s", file=sys.stderr, flush=True)
         w.close()
 
